@@ -9,7 +9,7 @@ denotes, with ordinary two's-complement fixed-width arithmetic:
   * rotations are judged only for amounts < width;
   * ordered comparisons, widening multiply, `/` and `%` are judged only when both operands were declared
     with the same signedness, unambiguously: `decl` = the sf flags the user saw on the two operand objects
-    *and on every register/constant leaf below them* when applying the operator — all must agree;
+    *and on every node below them* when applying the operator — all must agree;
     signed `/` and `%` accept floor and truncate;
   * division by zero, undeclared signedness, `top` leaves, ill-sized trees: not judged (None).
 
